@@ -338,6 +338,9 @@ row(props=["C12"], func=API + "(JavaAPIListener).EnterAnnotation", params=["s", 
     when=STARTED + ' && ElementValuePairs(ctx) != nil && GetText(Identifier(pair)) == "value"',
     fields={"value": 'global("%sbaseApiUrl") + ite(len(%s) < 2, %s, call("slice", %s, 1, len(%s) - 1))' % (API, PAIRTXT, PAIRTXT, PAIRTXT, PAIRTXT)},
     what="the value= attribute gives the path of every mapping annotation, shorthand (@PutMapping(value = ...)) and @RequestMapping alike")
+row(props=["C06"], func="pkg/application/refactor/unused.(RemoveUnusedImportApp).Refactoring", params=["j", "resultNodes"], kind="callguard", in_loop=True, each={"as": "node"},
+    callee="pkg/application/refactor/unused.removeImportByLines", expr="true",
+    what="every analysed file is cleaned, whatever kind its top-level type is (class, interface, enum, annotation type, record)")
 
 json.dump({"e5": rows}, open(os.path.join(os.path.dirname(os.path.dirname(os.path.abspath(__file__))), "spec", "e5.json"), "w"), indent=1, ensure_ascii=False)
 print(len(rows), "rows")
